@@ -39,7 +39,7 @@ PROPS = {
                 theorems=["Verif.Verified.C03", "Verif.Spec.retention_step"] + LIFT + REFINES + BUNDLES,
                 explain="Theorem Verified.C03: at every step of every history a live resident entry survives unless erased, rewritten, or the single victim of an insert of a new key into a full container."),
     "C04": dict(kinds=TTL, modes=["single"], judge="ACC", quick=300, thorough=10000,
-                theorems=["Verif.Verified.C01", "Verif.Spec.lookup_hit_is_last_write", "Verif.Spec.pre_fresh"] + LIFT + REFINES_TTL,
+                theorems=["Verif.Verified.C01", "Verif.Spec.lookup_hit_is_last_write", "Verif.Spec.pre_fresh", "Verif.C04_utmap"] + LIFT + REFINES_TTL,
                 explain="Theorem Verified.C01 (lazy flavor clause: a hit is strictly before the deadline of the latest write) and Spec.pre_fresh (eager flavor: after the per-call purge every resident entry is strictly before its deadline)."),
     "C05": dict(kinds=TTL, modes=["single"], judge="ACC", quick=300, thorough=10000,
                 theorems=["Verif.Verified.C05", "Verif.Spec.live_is_served", "Verif.Verified.C03"] + LIFT + REFINES_TTL,
@@ -80,13 +80,13 @@ PROPS = {
     "C18": dict(kinds=ALL, modes=["c18"], judge="TWIN", quick=150, thorough=5000,
                 theorems=["Verif.Core.C18_preTrivial", "Verif.Lru.preTrivial", "Verif.Mru.preTrivial", "Verif.Fifo.preTrivial",
                           "Verif.Rr.preTrivial", "Verif.Lfu.preTrivial", "Verif.Lfuda.preTrivial", "Verif.Tlru.preTrivial",
-                          "Verif.Utlru.preTrivial"],
+                          "Verif.Utlru.preTrivial", "Verif.C18_utmap"],
                 explain="Theorem Core.C18_preTrivial (eight caches): a range call leaves the model in exactly the state of its single calls in order and returns their aggregate; ut_map/ut_set: C18_utmap for non-empty ranges and positive TTL. Checked directly on the implementation by twin instances (range vs singles, all later calls compared)."),
     "C19": dict(kinds=ALL, modes=["c19"], judge="TWIN", quick=150, thorough=5000,
                 theorems=["Verif.C19_lru", "Verif.C19_mru", "Verif.C19_fifo", "Verif.C19_rr", "Verif.C19_lfu", "Verif.C19_lfuda",
                           "Verif.C19_tlru", "Verif.C19_utlru", "Verif.C19_utmap"],
                 explain="Theorems C19_<container>: a call that by its own result had no effect (peek lookup, miss, rejected insert, erase of an absent key) leaves the model state exactly as it was (six non-TTL caches), or removes only entries that had already expired (tlru/utlru), or does exactly what the per-call purge does (ut_map/ut_set). PARTIAL for the four TTL containers: that two states differing only by already-expired entries answer every later call alike except size()/erase/update-only results is checked on the implementation by the twin runs, not proved. Checked directly on the implementation by twin instances (H vs H with no-effect calls spliced in)."),
     "C20": dict(kinds=["utlru", "utmap"], modes=["c20"], judge="TWIN", quick=600, thorough=20000,
-                theorems=["Verif.C20_utlru", "Verif.C20_utmap"],
+                theorems=["Verif.C20_utlru", "Verif.C20_utmap", "Verif.Utlru.ttl_ms"],
                 explain="Theorems C20_utlru / C20_utmap: clear() leaves exactly the state of a newly constructed container with the same capacity and the configured TTL; checked on the implementation by twin instances (after clear vs fresh, same continuation)."),
 }
